@@ -133,6 +133,10 @@ var _ = pr.AutoF
 //@   loop 1 step[reset-creates] len(counterValues[nv.String]) >= 1 && counterValues[nv.String][len(counterValues[nv.String])-1] == nv.Int
 //@   loop 2 step[set-creates] len(counterValues[nv.String]) >= 1 && counterValues[nv.String][len(counterValues[nv.String])-1] == nv.Int
 //@   loop 3 step[increment-creates] len(counterValues[ci.String]) >= 1
+// ... and an instance created by the element belongs to the element's scope (it is dropped when the parent closes)
+//@   loop 1 step[reset-scoped] siblingScopes.Has(nv.String)
+//@   loop 2 step[set-scoped] siblingScopes.Has(nv.String) || old(len(counterValues[nv.String])) >= 1
+//@   loop 3 step[increment-scoped] siblingScopes.Has(ci.String) || old(len(counterValues[ci.String])) >= 1
 
 // CSS 2.1 §17.2.1 (anonymous table objects), the "proper table parent" relation: a row group, column
 // group or caption belongs in a table or an inline-table; a row also in a row group; a column also in a
